@@ -10,8 +10,24 @@ use crate::ev::{guard, hex, unhex, unit, Plan, Tier};
 use crate::front::{self, Front};
 use crate::model::*;
 
-/// "open, then metadata + verify" under catch_unwind. Ok(opened?).
+/// `total` on the bytes as given and as an interior slice of a larger buffer
+/// at the offsets 1, 3 and 7 (data that does not start on an aligned address).
 pub fn total(bytes: &[u8]) -> Result<bool, String> {
+    let r = total_at(bytes)?;
+    let mut big = vec![0x5au8; bytes.len() + 16];
+    // the Vec's buffer is at least 8-aligned; its offsets 1, 3, 7 are not
+    let base = (8 - (big.as_ptr() as usize % 8)) % 8;
+    for off in [1usize, 3, 7] {
+        let o = base + off;
+        big[o..o + bytes.len()].copy_from_slice(bytes);
+        if total_at(&big[o..o + bytes.len()])? != r {
+            return Err(format!("the same {} bytes open at one address and not at another (offset {} from an 8-byte boundary)", bytes.len(), off));
+        }
+    }
+    Ok(r)
+}
+
+fn total_at(bytes: &[u8]) -> Result<bool, String> {
     let r = guard(|| {
         let mut opened = false;
         if let Ok(f) = Fst::new(bytes) {
@@ -263,7 +279,7 @@ pub fn forbid_unsafe() -> Result<String, String> {
 pub fn plan(tier: Tier) -> Plan {
     let mut p = Plan::new("C20", "exploration");
     let thorough = tier.thorough();
-    p.rule = "(a) boundary grid: total length 0..64 x version field {0,1,2,3,4,2^32,u64::MAX} x root address {0,1,15,16,len-22..len-16,len-1,len,len+1,2^31,2^63,u64::MAX-20,u64::MAX-16,u64::MAX} x key count {0,1,u64::MAX} x filler {00,ff,80,40,c1} x checksum {0, correct, inverted}; (b) every truncation (every prefix and every suffix) and every single-byte mutation (255 values) of every FST built from subsets of U_ab3 with <= 3 keys (thorough: <= 4) and of three fan-out FSTs; for each byte string, under catch_unwind with overflow checks on: Fst::new / Map::new / Set::new (slice and Vec) / map_data of an existing reader to these bytes and, on whatever opens, len, is_empty, fst_type, size, as_bytes, to_vec, verify - any panic is a violation; (b2) files written by the independent reference encoder in versions 1, 2 and 3 (small sets, fan-outs 1..256 across the index threshold, final roots, wide node below a prefix; both node-form policies): each as is, with the header relabelled to each other version (checksum added/dropped/recomputed), every truncation, and single-byte mutants (11 xor masks per position) both plain and WITH THE CHECKSUM RECOMPUTED so that the code behind the checksum test is reached; (c) cargo rustc -p fst --lib --features levenshtein -- -F unsafe_code must compile (a lint, not model checking). non-trivial = byte strings that open".into();
+    p.rule = "(a) boundary grid: total length 0..64 x version field {0,1,2,3,4,2^32,u64::MAX} x root address {0,1,15,16,len-22..len-16,len-1,len,len+1,2^31,2^63,u64::MAX-20,u64::MAX-16,u64::MAX} x key count {0,1,u64::MAX} x filler {00,ff,80,40,c1} x checksum {0, correct, inverted}; (b) every truncation (every prefix and every suffix) and every single-byte mutation (255 values) of every FST built from subsets of U_ab3 with <= 3 keys (thorough: <= 4) and of three fan-out FSTs; for each byte string (as given and as an interior slice 1, 3 and 7 bytes past an 8-byte boundary), under catch_unwind with overflow checks on: Fst::new / Map::new / Set::new (slice and Vec) / map_data of an existing reader to these bytes and, on whatever opens, len, is_empty, fst_type, size, as_bytes, to_vec, verify - any panic is a violation; (b2) files written by the independent reference encoder in versions 1, 2 and 3 (small sets, fan-outs 1..256 across the index threshold, final roots, wide node below a prefix; both node-form policies): each as is, with the header relabelled to each other version (checksum added/dropped/recomputed), every truncation, and single-byte mutants (11 xor masks per position) both plain and WITH THE CHECKSUM RECOMPUTED so that the code behind the checksum test is reached; (c) cargo rustc -p fst --lib --features levenshtein -- -F unsafe_code must compile (a lint, not model checking). non-trivial = byte strings that open".into();
     p.assumptions = vec![
         "operations after the gate (root, stream, get) on garbage may panic by the property's own wording and are not called".into(),
         "the 'no unsafe code' clause is decided by the compiler's forbid(unsafe_code) lint over the library crate with the levenshtein feature on".into(),
